@@ -22,9 +22,11 @@ type Call struct {
 type Reply struct {
 	Status int
 	Header map[string]string
-	Body   []byte
-	Reset  bool // close the connection without answering (communication error)
-	Hang   bool // do not answer until the client gives up (at most 3 s): the client sees a timeout
+	// Lines: further header lines, each added as a line of its own (a header field may be sent on several lines)
+	Lines http.Header
+	Body  []byte
+	Reset bool // close the connection without answering (communication error)
+	Hang  bool // do not answer until the client gives up (at most 3 s): the client sees a timeout
 }
 
 // Scripted is a local HTTP server whose behaviour is a deterministic function (set per case) of the
@@ -77,6 +79,12 @@ func NewScripted() *Scripted {
 
 		for k, v := range rep.Header {
 			rw.Header().Set(k, v)
+		}
+
+		for k, vs := range rep.Lines {
+			for _, v := range vs {
+				rw.Header().Add(k, v)
+			}
 		}
 
 		if rep.Status == 0 {
